@@ -28,7 +28,7 @@ def mark(o, to_real):
 def run(tier):
     chk = vlib.Check("C20", "model_checking", tier)
     vlib.build_harness()
-    depth = 1 if tier == "quick" else 2
+    depth = 2 if tier == "quick" else 3
     path = os.path.join(vlib.TLA_DIR, "Ffi_run.cfg")
     with open(path, "w") as f:
         f.write(f"SPECIFICATION Spec\nCONSTANTS\n  Depth = {depth}\n  Emit = TRUE\nINVARIANT Lossless\nINVARIANT InvEmit\nCHECK_DEADLOCK FALSE\n")
